@@ -238,7 +238,7 @@ Print Assumptions model_passes_C07_clause_5.
     answers on it, the clause is never 1, 2, 3 or 5: every boolean entry of those clauses of
     [holds_C07] is re-proved over the observation lists from the invariants.  NOT covered: clause 4
     (per-account balance movement over an end-block / call) and clause 6 (slashing iterated per
-    expired request), and the correspondence component.  Hypotheses: no module-served service,
+    expired request); the correspondence component is [model_corresponds_to_itself] below.  Hypotheses: no module-served service,
     a non-negative tax rate, escrows empty at the start, distinct hashes, no end-block with a
     negative time increment, the observed universe [univ] contains the escrow accounts in the
     configured denoms and the escrow / tax accounts in the fee denoms of the stored requests
@@ -255,6 +255,23 @@ Theorem model_passes_clauses_C07 :
       k <> 1 /\ k <> 2 /\ k <> 3 /\ k <> 5.
 Proof. exact model_passes_clauses_C07_lemma. Qed.
 Print Assumptions model_passes_clauses_C07.
+
+(** The correspondence component, for BOTH properties, over EVERY history with distinct hashes
+    (module-served services included): on the case the driver would print for the model, the
+    checker never sees the model diverge from its own observation — the first component of
+    [check_case_C07] and of [check_case_C08] is -1.  (That [obs_of] is a faithful projection needs
+    every map of the state to have distinct keys: invariants [KInv], [kc], [BatchInv], [TInv].)
+    With [model_passes_clauses_C07] / [model_passes_clauses_C08]: the checker answers
+    (-1, p, k) with k outside the clauses listed there. *)
+Theorem model_corresponds_to_itself :
+  forall c steps h0 t0 l0 univ,
+    NoDup (create_txhs steps) ->
+    ledger_of (obs_of univ 0 None [] (init h0 t0 l0)) = l0 ->
+    let cs := model_case univ c h0 t0 l0 steps in
+    (forall corr p k, check_case_C07 cs = (corr, p, k) -> corr = -1)
+    /\ (forall corr p k, check_case_C08 cs = (corr, p, k) -> corr = -1).
+Proof. exact model_corresponds_to_itself_lemma. Qed.
+Print Assumptions model_corresponds_to_itself.
 
 (** ** the hypotheses are satisfiable, the conclusions are not vacuous: a history with a
     time-discounted binding (price 100, half price until t = 2000), a second flat binding
